@@ -1,8 +1,54 @@
 """Driver shared by C01 / C02 / C03 / C05 (vector part): reports the violations tagged with one property."""
 import time
 
+import json
+
 import wire
-from common import Scratch, Verdict, build_harness, log, write_evidence
+from common import Scratch, Verdict, build_harness, harness_json, log, marker_json, require_ok, run_tlc, seed, write_evidence
+
+
+def stream_extra(prop):
+    """FrameStream.tla behaviours replayed on real byte streams (C03, C05)."""
+    def extra(s, h, v, tier):
+        total = dict(evaluations=0, distinct=0, samples=[], extra={})
+        states = 0
+        for cfg, inter in ((("FrameStreamThorough.cfg" if tier == "thorough" else "FrameStreamQuick.cfg"), False), ("FrameStreamInterleaved.cfg", True)):
+            raw = s.file(cfg + ".raw")
+            res = require_ok(run_tlc(s, "FrameStream", cfg=cfg, marker='"RUN"', outfile=raw, copy=False, timeout=3000), "FrameStream " + cfg)
+            states += res.distinct
+            runs = s.file(cfg + ".ndjson")
+            n = 0
+            with open(runs, "w") as g, open(raw) as f:
+                chunk = []
+                for line in f:
+                    chunk.append(line)
+                    if len(chunk) >= 5000:
+                        for j in marker_json(chunk, '"RUN"'):
+                            g.write(json.dumps(j) + "\n")
+                            n += 1
+                        chunk = []
+                for j in marker_json(chunk, '"RUN"'):
+                    g.write(json.dumps(j) + "\n")
+                    n += 1
+            args = ["framestream", "-runs", runs, "-vec", s.file("wire.ndjson"), "-seed", str(seed())]
+            if inter:
+                args.append("-interleaved")
+            rep = harness_json(h, args, timeout=7200)
+            mine = 0
+            for x in rep["violations"]:
+                p, sig = x["sig"].split("|", 1)
+                if p == prop or (prop in ("C03", "C05") and p in ("C03", "C05")):
+                    v.violation(sig, x["detail"], x["replay"])
+                    mine += 1
+            log("FrameStream %s: %d states, %d complete behaviours replayed on real streams (6 source kinds x 3 compressions), %d violations" % (
+                cfg, res.distinct, n, mine))
+            total["evaluations"] += rep["evaluations"]
+            total["distinct"] += rep["distinct"]
+            total["samples"] += rep["samples"][:1]
+            total["extra"][cfg] = dict(states=res.distinct, behaviours=n)
+        total["extra"]["framestream_states"] = states
+        return total
+    return extra
 
 
 def run_wire_property(prop, tier, rule, level="exploration", extra=None):
